@@ -180,6 +180,22 @@ func runC04(c *Ctx) {
 		}
 		c.Run(resolveReparse(calls))
 	}
+	// the same API as stateless calls (seed -> strings along a path): they take part in the replay in other orders
+	// and from 8 goroutines at once
+	for k := 0; k < c.Pick(150, 1500); k++ {
+		var path []interface{}
+		for d := 0; d < r.Intn(4); d++ {
+			ix := r.Uint32()
+			if d%2 == 0 {
+				ix &= 0x7fffffff
+			}
+			path = append(path, w32(ix))
+		}
+		if path == nil {
+			path = []interface{}{}
+		}
+		c.Call(Event{"op": "HDPathStr", "seed": ints(randBytes(r, 16+r.Intn(49))), "net": 1 + k%len(nets), "path": path})
+	}
 	// random paths on every net
 	for k := 0; k < c.Pick(20, 300); k++ {
 		calls := []Event{hdCfg(), {"op": "NewMaster", "dst": 1, "seed": ints(randBytes(r, 16+r.Intn(49))), "net": 1 + k%len(nets)}}
@@ -209,6 +225,14 @@ func b58WithChecksum(p []byte) string {
 func runC05(c *Ctx) {
 	c.Conc = true // stateless calls are also replayed from several goroutines at once
 	r := c.Rng
+	// private keys assembled from scalars shorter than 32 bytes
+	for _, n := range []int{31, 30, 29, 16, 2, 1, 32} {
+		kb := randBytes(r, n)
+		if kb[0] == 0 {
+			kb[0] = 1
+		}
+		c.Call(Event{"op": "ShortKeyString", "key": ints(kb)})
+	}
 	secN := secN.Bytes()
 	for k := 0; k < c.Pick(3, 8); k++ {
 		// base keys: master, hardened child, public child
@@ -217,9 +241,13 @@ func runC05(c *Ctx) {
 			continue
 		}
 		chIdx := uint32(1<<31) + uint32(k)
-		if k%2 == 0 { // a child whose private scalar starts with a zero byte (planner search)
+		if k%2 == 0 { // a child whose private scalar starts with a zero byte (k = 0: with two zero bytes) (planner search)
 			seedZ := randBytes(r, 32)
-			if ix, ok := findLeadingZeroChild(seedZ, 1, 6000); ok {
+			zz, lim := 1, 6000
+			if k == 0 {
+				zz, lim = 2, 400000
+			}
+			if ix, ok := findLeadingZeroChild(seedZ, zz, lim); ok {
 				if mz, err := hdkeychain.NewMaster(seedZ, nets[k%len(nets)]); err == nil {
 					m, chIdx = mz, ix
 				}
@@ -486,6 +514,13 @@ func runC06(c *Ctx) {
 				}
 			}
 		}
+	}
+	// rune twins: a character replaced by the code point 0x100, 0x200, 0x2100 above it (low byte = the character)
+	for k := 0; k < c.Pick(30, 300); k++ {
+		e := Do(nil, Event{"op": "Wif", "key": ints(randBytes(r, 32)), "net": 1 + k%len(nets), "compressed": k%2 == 0})
+		s := gStr(e, "str")
+		p := r.Intn(len(s))
+		c.Call(Event{"op": "WifDecode", "s": str(s[:p] + string(rune(int(s[p])+[]int{0x100, 0x200, 0x2100, 0x400}[k%4])) + s[p+1:])})
 	}
 	// non-ASCII twins of valid strings: a multi-byte character in place of alphabet characters
 	for k := 0; k < c.Pick(30, 300); k++ {
